@@ -17,6 +17,7 @@ import (
 	"go.opentelemetry.io/otel/trace"
 
 	"github.com/aws/aws-sdk-go-v2/aws"
+	awshttp "github.com/aws/aws-sdk-go-v2/aws/transport/http"
 	"github.com/aws/aws-sdk-go-v2/service/s3"
 	"github.com/aws/aws-sdk-go-v2/service/s3/types"
 	"github.com/aws/smithy-go"
@@ -385,12 +386,8 @@ func (rs *s3ClientStorage) HeadObject(ctx context.Context, bucketName storage.Bu
 			return nil
 		}(),
 	})
-	var notFoundError *types.NotFound
-	if err != nil && errors.As(err, &notFoundError) {
-		return nil, storage.ErrNoSuchBucket
-	}
 	if err != nil {
-		return nil, err
+		return nil, rs.translateHeadObjectError(ctx, bucketName, err)
 	}
 	var userMetadata map[string]string
 	if len(headObjectResult.Metadata) > 0 {
@@ -421,6 +418,33 @@ func (rs *s3ClientStorage) HeadObject(ctx context.Context, bucketName storage.Bu
 			UserMetadata:            userMetadata,
 		},
 	}, nil
+}
+
+// translateHeadObjectError maps the error of a HeadObject request onto the
+// storage error it stands for. A HEAD response has no body, so it carries no
+// error code: the delete-marker header tells a current delete marker (404)
+// and a named delete-marker version (405) apart from other failures, and a
+// HeadBucket request tells a missing bucket from a missing key.
+func (rs *s3ClientStorage) translateHeadObjectError(ctx context.Context, bucketName storage.BucketName, err error) error {
+	var responseError *awshttp.ResponseError
+	if errors.As(err, &responseError) && responseError.Response != nil && responseError.Response.Header.Get("x-amz-delete-marker") == "true" {
+		versionID := responseError.Response.Header.Get("x-amz-version-id")
+		switch responseError.HTTPStatusCode() {
+		case http.StatusNotFound:
+			return &storage.CurrentDeleteMarkerError{VersionID: versionID}
+		case http.StatusMethodNotAllowed:
+			lastModified, _ := http.ParseTime(responseError.Response.Header.Get("Last-Modified"))
+			return &storage.VersionDeleteMarkerMethodNotAllowedError{VersionID: versionID, LastModified: lastModified}
+		}
+	}
+	var notFoundError *types.NotFound
+	if errors.As(err, &notFoundError) {
+		if _, headBucketErr := rs.HeadBucket(ctx, bucketName); headBucketErr == storage.ErrNoSuchBucket {
+			return storage.ErrNoSuchBucket
+		}
+		return storage.ErrNoSuchKey
+	}
+	return err
 }
 
 func (rs *s3ClientStorage) GetObject(ctx context.Context, bucketName storage.BucketName, key storage.ObjectKey, ranges []storage.ByteRange, opts *storage.GetObjectOptions) (*storage.Object, []io.ReadCloser, error) {
